@@ -606,7 +606,9 @@ func (fr *Frame) execTypeAssert(st *State, x *ssa.TypeAssert) *Val {
 		if it.NumMethods() == 0 {
 			ok = Neq(v.Tag, Num(0))
 		} else {
-			ok = And(Neq(v.Tag, Num(0)), App("implements."+shortTypeKey(x.AssertedType), SBool, v.Tag))
+			pred := "implements." + shortTypeKey(x.AssertedType)
+			ok = And(Neq(v.Tag, Num(0)), App(pred, SBool, v.Tag))
+			implIfaces[pred] = it // ground facts per registered dynamic type are added when the query is built
 		}
 		res = &Val{K: VIface, T: x.AssertedType, Tag: v.Tag, Box: v.Box}
 	} else {
